@@ -188,6 +188,12 @@ def build_cases(tier: str, seed: int) -> tuple[list[dict[str, Any]], dict[str, A
             for depth in ((2,) if tier == "quick" else (1, 2, 3)):
                 add("reset", ids, E, depth, [], False, reset=1, reset_mode=mode, tp=False)
     info["reset"] = "--reset 1 against ECUs answering / refusing / silently performing the reset"
+    # a re-scan into a database that already holds the session transitions of an earlier, deeper scan
+    for ids, E in reset_graphs:
+        for depth, skip in ((1, []), (2, [2]), (1, [ids[1]])):
+            for real in ("A", "B"):
+                add("prior-db", ids, E, depth, skip, False, prior_db=True, real=real)
+    info["prior-db"] = "the database already holds session_transition rows of an earlier scan of the same target"
     for _ in range(ndraw):
         c = random_case(rnd)
         c["fam"] = "draw-" + c.pop("shape")
